@@ -60,13 +60,13 @@ def run(ctx):
         p.attach_pattern(api.PatternClone(source=0, x=2147483647, y=-1, flags_PFFF=9))
         sources.append(("gen-clones%d.sunvox" % i, p.read()))
     cl = gen.classes()
-    for i in range(5 if q else 60):      # MetaModules exposing all 96 / 95 / few user-defined controllers
+    for i in range(5 if q else 25):      # MetaModules exposing all 96 / 95 / few user-defined controllers
         gen.FORCE_UDC = [96, 96, 95, 89, 2][i % 5]
         try:
             sources.append(("gen-meta%d.sunsynth" % i, api.Synth(gen.rand_module(rnd, cl["MetaModule"], spec, depth=1, in_project=False)).read()))
         finally:
             gen.FORCE_UDC = None
-    for i in range(3 if q else 40):      # Samplers (boundary slots, long envelopes, embedded effect)
+    for i in range(3 if q else 20):      # Samplers (boundary slots, long envelopes, embedded effect)
         sources.append(("gen-sampler%d.sunsynth" % i, api.Synth(gen.rand_module(rnd, cl["Sampler"], spec, depth=1, in_project=False)).read()))
     nfix = 0
     for name, data in sources:
@@ -80,6 +80,9 @@ def run(ctx):
         if q:
             rnd.shuffle(pos)
             pos = pos[:max(6, len(pos) // 6)]
+        elif len(pos) > 120 and name.startswith("gen"):      # (thorough: every position of the fixtures, 120 sampled ones of large generated files)
+            rnd.shuffle(pos)
+            pos = pos[:120]
         for k, (pth, i) in enumerate(pos):
             ed = copy.deepcopy(base)
             jid = JUNK_IDS[k % len(JUNK_IDS)]
